@@ -320,4 +320,4 @@ package rules
 //@   property C10
 //@   option safety off
 //@   option callpre off
-//@   ghost at call interfaceNameDispatchChains: check defaultIfaceName == "" ==> (len(arg6) == 0 && len(arg7) == 0)
+//@   ghost at call interfaceNameDispatchChains: check defaultIfaceName == "" ==> (len(arg6) == 0 && len(arg7) == 0) ; check defaultIfaceName != "" ==> (len(arg6) >= 1 && len(arg7) >= 1)
